@@ -284,7 +284,7 @@ theorem close_stops_once (env : Env) (hf : env.fixed = true) (ops : List Op) :
 adapters with one address are running. -/
 theorem register_twice_single (env : Env) (hf : env.fixed = true) (ops : List Op) :
     ∀ o ∈ runObs env {} ops, o.outcome = .ok → singleInstance env.cfg o.hist = true :=
-  fun o ho hok => (obsOk_clauses (spec_holds env hf ops o ho) hok).2.2.2.2.2
+  fun o ho hok => (obsOk_clauses (spec_holds env hf ops o ho) hok).2.2.2.2.2.1
 
 /-- … and registering an instance `a'` of an address whose registered instance `a` is running is a
 no-op: no `Start()`, no `Close()`, registry unchanged. -/
@@ -295,6 +295,34 @@ theorem register_twice_noop (env : Env) (hf : env.fixed = true) (ops : List Op)
     step env (run env {} ops) (.register a') =
       { run env {} ops with hist := .op (.register a') :: (run env {} ops).hist } :=
   register_second_instance (run_inv hf ops {} (Inv.init env) hnp) haddr hrun
+
+/-- **a reported peer loss restarts the adapter** (so does `Restart`): a running adapter is closed
+exactly once and then started exactly once; it is not started again only when the manager refuses it
+(a sender whose peer endpoint is a registered receiver's) or when the budget is 0 and it is not
+permanent. -/
+theorem peer_loss_restarts (env : Env) (hf : env.fixed = true) (ops : List Op) :
+    ∀ o ∈ runObs env {} ops, o.outcome = .ok → restartRestarts env.cfg env.budget o = true :=
+  fun o ho hok => (obsOk_clauses (spec_holds env hf ops o ho) hok).2.2.2.2.2.2
+
+/-- **every tick retries every registered adapter that is not running** and may still be started
+(ttl > 0, or permanent) exactly once — the lower bound that complements `budget`. -/
+theorem tick_retries (env : Env) (hf : env.fixed = true) (ops : List Op)
+    (hnp : (run env {} ops).panicked = false) (hc : (run env {} ops).closed = false) :
+    ∀ e ∈ (run env {} ops).reg, startable env e = true →
+      startsInStep e.conv (step env (run env {} ops) .tick).hist = 1 := by
+  intro e he hs
+  have inv := run_inv hf ops {} (Inv.init env) hnp
+  have hstep : (step env (run env {} ops) .tick).hist =
+      (tickList env (run env {} ops).reg (.op .tick :: (run env {} ops).hist)).2 := by
+    unfold step tick; simp [hnp, hc]
+  rw [hstep, tickList_starts hf]
+  have h1 := count_unique e.conv (startable env) _ inv.g.nodup
+  have h2 : 0 < ((run env {} ops).reg.filter (fun x => x.conv == e.conv && startable env x)).length := by
+    apply List.length_pos_of_mem (a := e)
+    rw [List.mem_filter]
+    exact ⟨he, by simp [hs]⟩
+  simp only [startsInStep]
+  omega
 
 /-! ### D13: the code before the `fix:` commit (`fixed := false`) -/
 
@@ -349,5 +377,25 @@ example : (run exEnv {} [.register 0, .tick, .tick, .register 2, .tick, .close])
 -- a second close is the one panic of the model
 example : (run exEnv {} [.close, .close]).panicked = true := by decide
 example : ([Op.register 0, .tick, .close].count .close ≤ 1) := by decide
+-- `register_twice_noop`: a second instance of the running sender's address
+example : running 0 (run exEnv {} [.register 0, .tick, .tick]).hist = true ∧
+    (exEnv.cfg 1).addr = (exEnv.cfg 0).addr := by decide
+-- `peer_loss_restarts`: the running sender is closed and started again
+example : ((runObs exEnv {} [.register 0, .tick, .tick, .peerDisappeared 0]).map
+    (fun o => (stopsInStep 0 o.hist, startsInStep 0 o.hist))).getLast? = some (1, 1) := by decide
+
+/-- hypotheses of `budget_exact` / `permanent_exact`: an adapter that never starts -/
+def failEnv (perm : Bool) (b : Nat) : Env :=
+  { cfg := fun _ => ⟨0, true, false, perm, 0, 1⟩, script := fun _ _ => .failRetry, budget := b }
+
+example : ((failEnv false 2).cfg 0).permanent = false ∧ ∀ k, (failEnv false 2).script 0 k = .failRetry :=
+  ⟨rfl, fun _ => rfl⟩
+example : startCount 0 (run (failEnv false 2) {} (.register 0 :: List.replicate 5 .tick)).hist = 2 := by
+  decide
+example : startCount 0 (run (failEnv true 2) {} (.register 0 :: List.replicate 5 .tick)).hist = 6 := by
+  decide
+-- `tick_retries`: a waiting element with ttl 1
+example : (run (failEnv false 2) {} [.register 0]).reg.map (startable (failEnv false 2)) = [true] := by
+  decide
 
 end Dtn7.Props.C16
